@@ -122,9 +122,18 @@ impl Writer {
         match self.fsync_schedule {
             FsyncSchedule::SyncEach => {
                 // Immediate mmap flush, skip background flusher
-                #[cfg(walrus_verif)]
-                crate::wal::verif::io_gate("flush", &block.file_path, "")?;
-                block.mmap.flush()?;
+                let flushed = (|| -> std::io::Result<()> {
+                    #[cfg(walrus_verif)]
+                    crate::wal::verif::io_gate("flush", &block.file_path, "")?;
+                    block.mmap.flush()
+                })();
+                if let Err(e) = flushed {
+                    // The append is reported as failed, so it must leave no trace: withdraw
+                    // the entry instead of leaving it readable (now and after a restart).
+                    let _ = block.zero_range(*cur - need, PREFIX_META_SIZE as u64);
+                    *cur -= need;
+                    return Err(e);
+                }
                 debug_print!(
                     "[writer] immediate fsync: col={}, block_id={}",
                     self.col,
@@ -343,14 +352,9 @@ impl Writer {
         }
 
         // Success - fsync touched files
-        let mut fsynced = HashSet::new();
-        for (blk, _, _) in write_plan.iter() {
-            if !fsynced.contains(&blk.file_path) {
-                #[cfg(walrus_verif)]
-                crate::wal::verif::io_gate("flush", &blk.file_path, "")?;
-                blk.mmap.flush()?;
-                fsynced.insert(blk.file_path.clone());
-            }
+        if let Err(e) = Self::flush_batch_files(&write_plan) {
+            Self::withdraw_batch(&write_plan, &revert_info, &mut *cur_offset);
+            return Err(e);
         }
 
         #[cfg(walrus_verif)]
@@ -555,14 +559,9 @@ impl Writer {
                 }
 
                 // Success - fsync all touched files
-                let mut fsynced = HashSet::new();
-                for (blk, _, _) in write_plan.iter() {
-                    if !fsynced.contains(&blk.file_path) {
-                        #[cfg(walrus_verif)]
-                        crate::wal::verif::io_gate("flush", &blk.file_path, "")?;
-                        blk.mmap.flush()?;
-                        fsynced.insert(blk.file_path.clone());
-                    }
+                if let Err(e) = Self::flush_batch_files(write_plan) {
+                    Self::withdraw_batch(write_plan, revert_info, cur_offset);
+                    return Err(e);
                 }
 
                 #[cfg(walrus_verif)]
@@ -603,6 +602,45 @@ impl Writer {
                 }
                 Err(e)
             }
+        }
+    }
+}
+
+impl Writer {
+    /// fsync every file the batch touched (once per file).
+    fn flush_batch_files(write_plan: &[(Block, u64, usize)]) -> std::io::Result<()> {
+        let mut fsynced = HashSet::new();
+        for (blk, _, _) in write_plan.iter() {
+            if !fsynced.contains(&blk.file_path) {
+                #[cfg(walrus_verif)]
+                crate::wal::verif::io_gate("flush", &blk.file_path, "")?;
+                blk.mmap.flush()?;
+                fsynced.insert(blk.file_path.clone());
+            }
+        }
+        Ok(())
+    }
+
+    /// A batch whose data was written but could not be made durable is reported as failed:
+    /// invalidate its headers so that no part of it is recovered after a restart, and roll
+    /// the writer back like the write-failure paths do.
+    fn withdraw_batch(
+        write_plan: &[(Block, u64, usize)],
+        revert_info: &BatchRevertInfo,
+        cur_offset: &mut u64,
+    ) {
+        for (blk, offset, _) in write_plan.iter() {
+            let _ = blk.zero_range(*offset, PREFIX_META_SIZE as u64);
+        }
+        let mut fsynced = HashSet::new();
+        for (blk, _, _) in write_plan.iter() {
+            if fsynced.insert(blk.file_path.clone()) {
+                let _ = blk.mmap.flush();
+            }
+        }
+        *cur_offset = revert_info.original_offset;
+        for block_id in revert_info.allocated_block_ids.iter() {
+            FileStateTracker::set_block_unlocked(*block_id as usize);
         }
     }
 }
